@@ -508,3 +508,51 @@ func init() {
 	}
 	externals["runtime.Gosched"] = func(fr *frame, args []value) value { sched.yield(); return nil }
 }
+
+// Time is not observed by any checked property: the clock stands still, tickers
+// and timers never fire.
+func init() {
+	zeroOf := func(fr *frame) value {
+		res := fr.fn.Signature.Results()
+		if res.Len() == 0 {
+			return nil
+		}
+		return zero(res.At(0).Type())
+	}
+	for _, n := range []string{"time.Now", "time.Since", "time.Until", "time.runtimeNano", "time.now", "time.runtimeNow"} {
+		n := n
+		externals[n] = func(fr *frame, args []value) value {
+			ex.noteStub("time: " + n + " returns the zero value")
+			return zeroOf(fr)
+		}
+	}
+	externals["time.Sleep"] = func(fr *frame, args []value) value { sched.yield(); return nil }
+	neverChan := func(fr *frame) value {
+		tt := fr.i.prog.ImportedPackage("time").Type("Time").Type()
+		return &chanv{cap: 1, elem: tt}
+	}
+	newTimerLike := func(typeName string) externalFn {
+		return func(fr *frame, args []value) value {
+			ex.noteStub("time: " + typeName + " never fires")
+			T := fr.i.prog.ImportedPackage("time").Type(typeName).Type()
+			st := T.Underlying().(*types.Struct)
+			v := zero(T).(structure)
+			for k := 0; k < st.NumFields(); k++ {
+				if st.Field(k).Name() == "C" {
+					v[k] = neverChan(fr)
+				}
+			}
+			p := new(value)
+			*p = v
+			return p
+		}
+	}
+	externals["time.NewTicker"] = newTimerLike("Ticker")
+	externals["time.NewTimer"] = newTimerLike("Timer")
+	externals["time.After"] = func(fr *frame, args []value) value { return neverChan(fr) }
+	externals["time.Tick"] = func(fr *frame, args []value) value { return neverChan(fr) }
+	externals["(*time.Ticker).Stop"] = func(fr *frame, args []value) value { return nil }
+	externals["(*time.Ticker).Reset"] = func(fr *frame, args []value) value { return nil }
+	externals["(*time.Timer).Stop"] = func(fr *frame, args []value) value { return false }
+	externals["(*time.Timer).Reset"] = func(fr *frame, args []value) value { return false }
+}
